@@ -117,4 +117,84 @@ func filterStoreFacts(l *leanFile, shape map[string]any) {
 	l.def("cachePutSites", "List String", lstrs(sites), "functions of the root package that call FilterCache.Put")
 	shape["cachePutCallers"] = callers
 	shape["cachePutSites"] = sites
+	pkgStateFacts(l, shape)
+}
+
+// pkgStateFacts: the package-level variables of filterdb and headerfs that can hold
+// state shared by every store opened in the process.  Named byte-string constants
+// (`x = []byte("...")`) and error values (`fmt.Errorf` / `errors.New`) are not listed,
+// neither are `var _ T = ...` assertions; everything else is, with its kind (map, pool,
+// other).  C05_store_source_facts pins the list: a filter store's content depends on
+// its own database and chain parameters only, nothing is memoised per process under
+// a key other than the block hash.
+func pkgStateFacts(l *leanFile, shape map[string]any) {
+	var state []string
+	for _, dir := range []string{"filterdb", "headerfs"} {
+		ents, err := os.ReadDir(repo + "/" + dir)
+		if err != nil {
+			fail("cannot list %s/%s: %v", repo, dir, err)
+			return
+		}
+		for _, e := range ents {
+			n := e.Name()
+			if e.IsDir() || !strings.HasSuffix(n, ".go") || strings.HasSuffix(n, "_test.go") || strings.Contains(n, "verif") {
+				continue
+			}
+			gf := parse(dir + "/" + n)
+			if gf == nil {
+				continue
+			}
+			for _, d := range gf.Decls {
+				gd, isGen := d.(*ast.GenDecl)
+				if !isGen || gd.Tok != token.VAR {
+					continue
+				}
+				for _, sp := range gd.Specs {
+					vs, isVal := sp.(*ast.ValueSpec)
+					if !isVal {
+						continue
+					}
+					for i, id := range vs.Names {
+						if id.Name == "_" {
+							continue
+						}
+						var val ast.Expr
+						if i < len(vs.Values) {
+							val = vs.Values[i]
+						}
+						text := ""
+						if vs.Type != nil {
+							text += src(vs.Type) + " "
+						}
+						if val != nil {
+							text += src(val)
+						}
+						if c, isCall := val.(*ast.CallExpr); isCall && vs.Type == nil {
+							fn := src(c.Fun)
+							if fn == "fmt.Errorf" || fn == "errors.New" {
+								continue
+							}
+							if _, isArr := c.Fun.(*ast.ArrayType); isArr && fn == "[]byte" && len(c.Args) == 1 {
+								if _, isLit := c.Args[0].(*ast.BasicLit); isLit {
+									continue
+								}
+							}
+						}
+						kind := "other"
+						switch {
+						case strings.Contains(text, "map[") || strings.Contains(text, "sync.Map"):
+							kind = "map"
+						case strings.Contains(text, "sync.Pool"):
+							kind = "pool"
+						}
+						state = append(state, dir+"."+id.Name+":"+kind)
+					}
+				}
+			}
+		}
+	}
+	sort.Strings(state)
+	l.def("pkgLevelState", "List String", lstrs(state),
+		"package-level variables of filterdb and headerfs other than named byte strings and error values, with their kind")
+	shape["pkgLevelState"] = state
 }
